@@ -949,7 +949,7 @@ Lemma cleanup_ok s : linked_ok s -> linked_ok (cleanup s).
 Proof.
   intros [ND OK]. split.
   - unfold cleanup. simpl. clear OK. induction (links s) as [|e l IH]; simpl; [constructor|]. inversion ND; subst.
-    destruct (negb (has_hash (last (fst e) []))); simpl; auto. constructor; auto.
+    match goal with |- context [if ?b then _ else _] => destruct b end; simpl; auto. constructor; auto.
     intros HI. apply H1. apply in_map_iff in HI. destruct HI as [e' [E1 E2]]. apply filter_In in E2.
     apply in_map_iff. exists e'. tauto.
   - intros p i HI. unfold cleanup in HI. simpl in HI. apply filter_In in HI. destruct HI as [HI _].
